@@ -95,7 +95,9 @@ META = {
              'static or another creator\'s task | none; creates=[1-3 names] | none; target_regex | none; 0-3 yields as '
              'sub-tasks or explicit basenames with deps/targets/up-to-date/failing), late static tasks depending on '
              'several placeholders, selection none | tasks | sub-tasks | targets | unknown words (+ '
-             '--auto-delayed-regex), --continue, runner serial | thread k=1..3 x policy | process k=2; '
+             '--auto-delayed-regex), --continue, runner serial | thread k=1..3 x policy | process k=2; 22% of the serial/thread '
+             'cases run the SAME namespace object 2-3 times in one process (same / other selection), monitors and '
+             'model per run; '
              'non-trivial = a creator was evaluated; distinct = distinct rendered case + schedule'),
     'assumptions': ['up-to-date status is produced by uptodate=[True] on a fresh DB with existing targets',
                     'process-mode runs are sampled'],
@@ -322,21 +324,28 @@ def _task_dict(rec, an, name, task_dep, targets, file_dep, utd, fails):
 
 def build_namespace(case, rec):
     from doit.loader import create_after
-    an = case['_an']
+    shared = case.get('_shared')
+    if shared is not None and 'ns' in shared:
+        return shared['ns']         # the SAME namespace object (same creator functions) as in the previous run
     ns = {}
 
     def static_gen(late):
         def gen():
             for t in case['static']:
                 if bool(t.get('late')) == late:
-                    d = _task_dict(rec, an, t['name'], t['task_dep'], t['targets'], [], t['utd'], t['fails'])
-                    d['basename'] = t['name']
+                    d = {'actions': [NamedAct(list(t['targets']), t['fails'])], 'basename': t['name']}
+                    if t['task_dep']:
+                        d['task_dep'] = list(t['task_dep'])
+                    if t['targets']:
+                        d['targets'] = list(t['targets'])
+                    if t['utd']:
+                        d['uptodate'] = [True]
                     yield d
         return gen
 
     def delayed(c, cr):
         def creator():
-            rec.ev(['creator', c])
+            runlib._REC.ev(['creator', c])      # the recorder of the run in progress (a namespace may be run again)
             for y in cr['yields']:
                 # the task's id is only known once its name is: the action looks it up by the name doit gave it
                 d = {'actions': [NamedAct(list(y['targets']), y['fails'])]}
@@ -387,6 +396,8 @@ def build_namespace(case, rec):
         f = env[key]
         ns[key] = create_after(**kw)(f) if kw is not None else f
     ns['DOIT_CONFIG'] = {'dep_file': 'db.json', 'backend': 'json', 'verbosity': 0, 'reporter': runlib.RecReporter}
+    if shared is not None:
+        shared['ns'] = ns
     return ns
 
 
@@ -437,11 +448,13 @@ def argv_of(case):
 ERRMAP = {None: 'none', 'not-found': 'notfound', 'cyclic': 'cyclic', 'invalid': 'duptarget', 'deadlock': 'deadlock'}
 
 
-def run_impl(case):
-    """run the real doit; OBS = {'events': [[kind, id]..] in recorder order, 'err', 'exit', 'unknown': [...]}"""
+def run_impl(case, shared=None):
+    """run the real doit; OBS = {'events': [[kind, id]..] in recorder order, 'err', 'exit', 'unknown': [...]}.
+    `shared`: dict kept by the caller over several runs of ONE namespace object in this process (multi-run cases)"""
     an = analyse(case)
     c2 = dict(case)
     c2['_an'] = an
+    c2['_shared'] = shared
     c2['tasks'] = [{'name': s, 'targets': [], 'ignored': False} for s in an['names']]
     saved = (runlib.build_namespace, runlib._prepare_fs, runlib.argv_of)
     runlib.build_namespace, runlib._prepare_fs, runlib.argv_of = build_namespace, _prepare_fs, argv_of
@@ -501,6 +514,40 @@ def run_impl(case):
 # ======================================================================================================
 # 3. generator
 # ======================================================================================================
+
+def gen_sel(rng, static, creators, k):
+    """(selection | None, --auto-delayed-regex)"""
+    allph = [p for cr in creators for p in placeholders(cr)]
+    sel = None
+    auto = False
+    if rng.random() < k.get('p_sel', 0.75):
+        tasknames = [s['name'] for s in static] + allph
+        targets = []
+        subs = []
+        for c, cr in enumerate(creators):
+            for p in placeholders(cr):
+                for d in make_tasks(cr, p):
+                    if cr['regex'] or rng.random() < 0.08:
+                        targets += d['targets']
+                    if ':' in d['name']:
+                        subs.append(d['name'])
+            if not cr['creates']:
+                subs.append('%s:%s' % (cr['fname'], rng.choice(['x', 'y', 'q'])))
+        n = rng.choice([1, 1, 2, 2, 3])
+        sel = []
+        for _ in range(n):
+            r = rng.random()
+            if r < 0.3 or not (targets or subs):
+                sel.append(rng.choice(tasknames))
+            elif r < 0.55 and subs:
+                sel.append(rng.choice(subs))
+            elif r < 0.94 and targets:
+                sel.append(rng.choice(targets))
+            else:
+                sel.append(rng.choice(['o0_zz', 'o1_zz', 'nobody', 'o0_a']))
+        auto = rng.random() < 0.15
+    return sel, auto
+
 
 def gen_case(rng, runner=None, knobs=None):
     k = knobs or {}
@@ -583,36 +630,7 @@ def gen_case(rng, runner=None, knobs=None):
         rest = order[1:]
         rng.shuffle(rest)
         order = rest[:1] + head + rest[1:] if rng.random() < 0.5 else head + rest
-    # selection
-    sel = None
-    auto = False
-    if rng.random() < k.get('p_sel', 0.75):
-        pool = []
-        tasknames = [s['name'] for s in static] + allph
-        targets = []
-        subs = []
-        for c, cr in enumerate(creators):
-            for p in placeholders(cr):
-                for d in make_tasks(cr, p):
-                    if cr['regex'] or rng.random() < 0.08:
-                        targets += d['targets']
-                    if ':' in d['name']:
-                        subs.append(d['name'])
-            if not cr['creates']:
-                subs.append('%s:%s' % (cr['fname'], rng.choice(['x', 'y', 'q'])))
-        n = rng.choice([1, 1, 2, 2, 3])
-        sel = []
-        for _ in range(n):
-            r = rng.random()
-            if r < 0.3 or not (targets or subs):
-                sel.append(rng.choice(tasknames))
-            elif r < 0.55 and subs:
-                sel.append(rng.choice(subs))
-            elif r < 0.94 and targets:
-                sel.append(rng.choice(targets))
-            else:
-                sel.append(rng.choice(['o0_zz', 'o1_zz', 'nobody', 'o0_a']))
-        auto = rng.random() < 0.15
+    sel, auto = gen_sel(rng, static, creators, k)
     runner = runner or rng.choice(['serial', 'serial', 'thread', 'thread', 'thread'])
     case = {'static': static, 'creators': creators, 'order': order, 'sel': sel, 'auto': auto,
             'cont': rng.random() < 0.4, 'runner': runner, 'nproc': 0}
@@ -622,6 +640,17 @@ def gen_case(rng, runner=None, knobs=None):
     elif runner == 'process':
         case['nproc'] = 2
         case['policy'] = {'kind': 'seeded', 'seed': rng.randrange(1 << 30)}
+    if runner != 'process' and rng.random() < k.get('p_multi', 0.22):
+        # the SAME namespace object is run again in this process (DoitMain.run twice / doit.api.run_tasks twice): same or
+        # another selection; nothing a run did to the loaders may survive it
+        runs = []
+        for _ in range(rng.choice([1, 1, 2])):
+            if rng.random() < 0.4:
+                runs.append({'sel': list(sel) if sel is not None else None, 'auto': auto})
+            else:
+                s2, a2 = gen_sel(rng, static, creators, k)
+                runs.append({'sel': s2, 'auto': a2})
+        case['runs'] = runs
     return case
 
 
@@ -643,6 +672,8 @@ def render(case):
                                                      ' utd' if y['utd'] else '',
                                                      ' FAILS' if y['fails'] else '') for y in cr['yields']]))
     lines.append('doit %s' % ' '.join(argv_of(case)))
+    for r in case.get('runs') or []:
+        lines.append('then, same process and namespace: doit %s' % ' '.join(argv_of(dict(case, sel=r['sel'], auto=r.get('auto')))))
     return lines
 
 
@@ -700,9 +731,10 @@ def judge_one(case, obs, ans):
     failed = []
     if 'error' in ans:
         return failed, 'driver error: %s' % ans['error']
-    for k in ('once', 'after', 'obey', 'utd', 'target'):
+    for k in ('once', 'after', 'obey', 'utd', 'target', 'evaluated'):
         if not ans['prop'].get(k, True):
-            failed.append(k + ((': ' + ans['prop'].get('target_why', '')) if k == 'target' else ''))
+            failed.append(k + ((': ' + ans['prop'].get('target_why', '')) if k == 'target' else '') +
+                          ((': ' + ans['prop'].get('evaluated_why', '')) if k == 'evaluated' else ''))
     if obs['unknown']:
         failed.append('target: a task outside every creator\'s declared output was reported: %s' % obs['unknown'][:4])
     if obs['err'] in ('crash', 'deadlock'):
@@ -716,18 +748,76 @@ def judge_one(case, obs, ans):
     return failed, div
 
 
-def eval_cases(cases):
-    """[(case, obs, ans)]"""
-    out = []
-    reqs = []
-    for case in cases:
+def run_case(case, j):
+    """the single-run case of run j"""
+    r = runs_of(case)[j]
+    c = dict(case, sel=r['sel'], auto=bool(r.get('auto')))
+    c.pop('runs', None)
+    return c
+
+
+def runs_of(case):
+    """the runs of a case: [{'sel', 'auto'}]; a plain case is one run"""
+    return [{'sel': case['sel'], 'auto': bool(case.get('auto'))}] + [dict(r) for r in (case.get('runs') or [])]
+
+
+def run_all(case):
+    """[(case of that run, obs, an)]: a multi-run case runs ONE namespace object several times in this process (fresh
+    scratch dir and DB each time: every run is a first run as far as doit's documented state goes)"""
+    runs = runs_of(case)
+    if len(runs) == 1:
         obs, an = run_impl(case)
-        if obs.get('schedule') is not None and case['runner'] != 'serial':
-            case = dict(case, schedule=obs['schedule'])
-        reqs.append(to_request(case, obs, an))
-        out.append([case, obs])
+        return [(case, obs, an)]
+    shared = {}
+    out = []
+    for r in runs:
+        cr = dict(case, sel=r['sel'], auto=bool(r.get('auto')))
+        cr.pop('runs', None)
+        cr.pop('schedule', None)
+        obs, an = run_impl(cr, shared=shared)
+        out.append((cr, obs, an))
+    return out
+
+
+def eval_runs(cases):
+    """per case: [(case of the run, obs, ans)] for every run; the model is asked about each run separately (it has no
+    state that survives a run -- neither has doit, by its documentation)"""
+    per_case, reqs = [], []
+    for case in cases:
+        runs = []
+        for cr, obs, an in run_all(case):
+            if obs.get('schedule') is not None and cr['runner'] != 'serial' and not case.get('runs'):
+                cr = dict(cr, schedule=obs['schedule'])
+            reqs.append(to_request(cr, obs, an))
+            runs.append([cr, obs])
+        per_case.append(runs)
     answers = common.drv_batch(reqs) if reqs else []
-    return [(c, o, a) for (c, o), a in zip(out, answers)]
+    out, i = [], 0
+    for runs in per_case:
+        out.append([(cr, obs, answers[i + j]) for j, (cr, obs) in enumerate(runs)])
+        i += len(runs)
+    return out
+
+
+def eval_cases(cases):
+    """[(case, obs, ans)]: for a multi-run case obs/ans are those of the first run on which a monitor fails or the model
+    disagrees (else of the last run); obs['run'] says which"""
+    out = []
+    for case, runs in zip(cases, eval_runs(cases)):
+        pick = len(runs) - 1
+        for j, (cr, obs, ans) in enumerate(runs):
+            failed, div = judge_one(cr, obs, ans)
+            if failed or div:
+                pick = j
+                break
+        cr, obs, ans = runs[pick]
+        if len(runs) > 1:
+            obs = dict(obs, run=pick, n_runs=len(runs),
+                       creators_per_run=[sum(1 for e in o['events'] if e[0] == 'creator') for _, o, _ in runs])
+            out.append((case, obs, ans))
+        else:
+            out.append((cr, obs, ans))
+    return out
 
 
 def still_fails(case, want):
@@ -755,6 +845,9 @@ def _variants(case):
                 y['task_dep'] = [d for d in y['task_dep'] if d != nm]
         if c['sel'] is not None:
             c['sel'] = [w for w in c['sel'] if w != nm]
+        for r in c.get('runs') or []:
+            if r['sel'] is not None:
+                r['sel'] = [w for w in r['sel'] if w != nm] or None
         if not any(t.get('late') for t in c['static']):
             c['order'] = [o for o in c['order'] if o != '@late']
         if c['static'] and (c['sel'] is None or c['sel']):
@@ -774,6 +867,9 @@ def _variants(case):
                 c['sel'] = [w for w in c['sel'] if w.split(':')[0] not in gone]
                 if not c['sel']:
                     continue
+            for r in c.get('runs') or []:
+                if r['sel'] is not None:
+                    r['sel'] = [w for w in r['sel'] if w.split(':')[0] not in gone] or None
             yield c
         for j in range(len(case['creators'][i]['yields'])):
             c = copy.deepcopy(case)
@@ -809,6 +905,23 @@ def _variants(case):
             c = copy.deepcopy(case)
             del c['sel'][i]
             yield c
+    for i in range(len(case.get('runs') or [])):
+        c = copy.deepcopy(case)
+        del c['runs'][i]
+        if not c['runs']:
+            del c['runs']
+        yield c
+        c = copy.deepcopy(case)         # the i-th re-run takes the place of the first run
+        r = c['runs'].pop(i)
+        c['sel'], c['auto'] = r['sel'], bool(r.get('auto'))
+        if not c['runs']:
+            del c['runs']
+        yield c
+        if r['sel'] is not None and len(r['sel']) > 1:
+            for j in range(len(r['sel'])):
+                c = copy.deepcopy(case)
+                del c['runs'][i]['sel'][j]
+                yield c
     for key in ('cont', 'auto'):
         if case.get(key):
             c = copy.deepcopy(case)
@@ -868,6 +981,11 @@ def count_case(st, case, obs, ans):
                 st.count('sel:regex-target')
             else:
                 st.count('sel:unknown-word')
+    st.count('runs-in-one-process:%d' % len(runs_of(case)))
+    if case.get('runs'):
+        for r in case['runs']:
+            st.count('rerun:same-selection' if r['sel'] == case['sel'] else 'rerun:other-selection')
+        st.count('rerun:creators-per-run=%s' % obs.get('creators_per_run'))
     if sig_subtask_then_regex({'case': case}):
         st.count('shape:subtask-word-then-regex-target (F-C15a)')
     if uncovered_creates(case):
@@ -929,11 +1047,11 @@ def eval_batch(batch):
                 if not f2:
                     c2, o2, a2, f2 = case, obs, ans, failed
                 st.violation({'case': case_key(c2), 'rendered': render(c2), 'obs': o2, 'failed': f2,
-                              'names': analyse(c2)['names'], 'answer': {k: a2.get(k) for k in ('prop', 'wf', 'accept')}},
+                              'names': analyse(run_case(c2, o2.get('run', 0)))['names'], 'answer': {k: a2.get(k) for k in ('prop', 'wf', 'accept')}},
                              f2, 'monitor false on the implementation trace: %s' % '; '.join(f2))
             elif div:
                 st.divergence({'case': case_key(case), 'rendered': render(case), 'obs': obs,
-                               'names': analyse(case)['names'], 'answer': ans}, div)
+                               'names': analyse(run_case(case, obs.get('run', 0)))['names'], 'answer': ans}, div)
     return st
 
 
@@ -983,6 +1101,11 @@ def exhaustive_cases():
                             out.append(dict(copy.deepcopy(case), policy=pol))
                     else:
                         out.append(case)
+                        # the same namespace object three times in one process: same selection again, then `all`
+                        # (resp. the created task when the first selection was `all`)
+                        out.append(dict(copy.deepcopy(case),
+                                        runs=[{'sel': copy.deepcopy(sel), 'auto': False},
+                                              {'sel': None if sel is not None else [created], 'auto': False}]))
     return out
 
 
@@ -997,7 +1120,7 @@ def run(ctx, scale=1.0):
     procs = [c for c in corpus if c['runner'] == 'process']
     ex = exhaustive_cases()
     ctx.extra['exhaustive_small_scope'] = {'cases': len(ex), 'what': '3 creator styles x 4 trigger states x 6 selection '
-                                           'shapes x {serial, thread-2 under 5 schedule policies}'}
+                                           'shapes x {serial, serial run 3 times in one process, thread-2 under 5 schedule policies}'}
     rng = ctx.rng
     n_rand = int((3000 if quick else 60000) * ctx.boost * scale)
     n_proc = int((6 if quick else 150) * min(ctx.boost, 2) * scale)
@@ -1033,21 +1156,27 @@ def replay(ctx, data):
     if not case:
         print('nothing to replay (no failing input was found): %s' % data.get('note'))
         return False
-    (c, obs, ans), = eval_cases([copy.deepcopy(case)])
-    names = analyse(c)['names']
-    print('\n'.join(render(c)))
-    print('implementation trace:')
-    for e in obs['events']:
-        print('   %-8s %s' % (e[0], ('creator #%d (task_%s)' % (e[1], c['creators'][e[1]]['fname'])) if e[0] == 'creator'
-                              else names[e[1]]))
-    if obs['unknown']:
-        print('   reported tasks no creator declares:', obs['unknown'])
-    print('exit=%s err=%s' % (obs['exit'], obs['err']))
-    failed, div = judge_one(c, obs, ans)
-    print('monitors:', json.dumps(ans.get('prop')))
-    print('model accepts the trace:', ans.get('accept'), '| hypotheses:', json.dumps(ans.get('wf')))
-    if failed:
-        print('FAILED:', '; '.join(failed))
-    if div:
-        print('DIVERGENCE:', div)
-    return not failed and not div
+    case = copy.deepcopy(case)
+    runs, = eval_runs([case])
+    print('\n'.join(render(case)))
+    ok = True
+    for j, (c, obs, ans) in enumerate(runs):
+        names = analyse(c)['names']
+        if len(runs) > 1:
+            print('--- run %d of %d in this process: doit %s' % (j + 1, len(runs), ' '.join(argv_of(c))))
+        print('implementation trace:')
+        for e in obs['events']:
+            print('   %-8s %s' % (e[0], ('creator #%d (task_%s)' % (e[1], c['creators'][e[1]]['fname'])) if e[0] == 'creator'
+                                  else names[e[1]]))
+        if obs['unknown']:
+            print('   reported tasks no creator declares:', obs['unknown'])
+        print('exit=%s err=%s' % (obs['exit'], obs['err']))
+        failed, div = judge_one(c, obs, ans)
+        print('monitors:', json.dumps(ans.get('prop')))
+        print('model accepts the trace:', ans.get('accept'), '| hypotheses:', json.dumps(ans.get('wf')))
+        if failed:
+            print('FAILED:', '; '.join(failed))
+        if div:
+            print('DIVERGENCE:', div)
+        ok = ok and not failed and not div
+    return ok
